@@ -16,6 +16,7 @@ import AgeModel.SpecConsts
 import AgeModel.Concrete
 import AgeModel.File
 import Proofs.GoTieNative
+import Proofs.GoTiePrims
 namespace AgeModel
 namespace Tie.C05
 open SpecConsts
@@ -185,6 +186,19 @@ theorem scrypt_wrapWithLabels_tie (P : Prims) {κ : Type} (E : GoTie.NativeEnv P
       | .ok (some (ss, ls), t) => res = (ss.map GoTie.toGoStanza, ls, none, t)
       | .ok (none, _) => False :=
   GoTie.scrypt_wrapWithLabels_tie P E pw logN hN fk tape
+
+/-! `age.headerMAC` and `age.streamKey` (primitives.go), translated on every run; HKDF, HMAC and
+`MarshalWithoutMAC` are parameters (`GoTie.MacEnv`): the MAC key is HKDF(file key, no salt, "header"),
+the MAC covers the header serialised without its MAC, the payload key is
+HKDF(file key, salt = nonce, "payload") — the model's `headerMAC` and `streamKey`. -/
+
+theorem headerMAC_tie (P : Prims) {κ η : Type} (E : GoTie.MacEnv P κ η) (fk : Bytes) (ss : List Format.Stanza) :
+    Extracted.age_headerMAC E.H E.R E.N E.M E.S fk ⟨ss.map GoTie.toGoFStanza, []⟩ = .ok (headerMAC P fk ss, none) :=
+  GoTie.headerMAC_model P E fk ss
+
+theorem streamKey_tie (P : Prims) {κ η : Type} (E : GoTie.MacEnv P κ η) (fk nonce : Bytes) :
+    Extracted.age_streamKey E.H E.R fk nonce = .ok (streamKey P fk nonce) :=
+  GoTie.streamKey_tie P E fk nonce
 
 end Tie.C05
 end AgeModel
